@@ -12,7 +12,9 @@ use std::collections::BTreeMap;
 use std::process::{Command, Stdio};
 use std::time::Instant;
 
-const VERIF: &str = "/verif";
+fn verif_root() -> String {
+    std::env::var("RV_ROOT").unwrap_or_else(|_| "/verif".to_string())
+}
 
 fn arg_val(args: &[String], name: &str) -> Option<String> {
     args.iter().position(|a| a == name).and_then(|i| args.get(i + 1).cloned())
@@ -40,7 +42,7 @@ fn main() {
     let seed = arg_val(&args, "--seed").and_then(|s| s.parse().ok()).or_else(|| env_u64("VERIF_SEED")).unwrap_or(1);
     let engine = arg_val(&args, "--engine").unwrap_or_else(|| "e1".to_string());
     let scale = env_u64("VERIF_SCALE").unwrap_or(100);
-    let known = KnownFindings::load(&format!("{VERIF}/KNOWN_FINDINGS.txt"));
+    let known = KnownFindings::load(&format!("{}/KNOWN_FINDINGS.txt", verif_root()));
 
     if let Some(t) = arg_val(&args, "--engines") {
         let e = if t == "thorough" { info.engines_thorough } else { info.engines_quick };
@@ -98,7 +100,7 @@ fn main() {
         .and_then(|s| s.parse().ok())
         .or_else(|| env_u64("VERIF_SHARDS").map(|v| v as usize))
         .unwrap_or(if tier == Tier::Quick { 8 } else { 16 });
-    let tmpdir = format!("{VERIF}/tmp/{}-{}-{}", prop, tier.name(), std::process::id());
+    let tmpdir = format!("{}/tmp/{}-{}-{}", verif_root(), prop, tier.name(), std::process::id());
     std::fs::create_dir_all(&tmpdir).ok();
     let mut merged = Outcome::new();
     let mut distinct_extra = 0u64;
@@ -155,7 +157,7 @@ fn main() {
                     let tail: String = stderr.lines().rev().take(6).collect::<Vec<_>>().into_iter().rev().collect::<Vec<_>>().join(" | ");
                     if eng == "e3" && status.code() == Some(77) {
                         // AddressSanitizer report: a memory error inside the code under test
-                        let path = format!("{VERIF}/replays/{}-asan-{}-{}.txt", prop, seed, i);
+                        let path = format!("{}/replays/{}-asan-{}-{}.txt", verif_root(), prop, seed, i);
                         std::fs::write(&path, &stderr).ok();
                         let ctxv = json!({"engine": "e3", "seed": seed, "shard": i, "stderr_file": path});
                         let dummy = dummy_ctx(&prop, tier, seed, eng);
@@ -179,10 +181,10 @@ fn main() {
     }
 
     // witnesses
-    std::fs::create_dir_all(format!("{VERIF}/replays")).ok();
+    std::fs::create_dir_all(format!("{}/replays", verif_root())).ok();
     let mut lines = Vec::new();
     for (n, v) in merged.violations.iter().enumerate() {
-        let path = format!("{VERIF}/replays/{}-{}-{}.json", prop, seed, n);
+        let path = format!("{}/replays/{}-{}-{}.json", verif_root(), prop, seed, n);
         let mut r = v.replay.clone();
         if let Some(o) = r.as_object_mut() {
             o.insert("signature".into(), json!(v.sig));
@@ -236,8 +238,8 @@ fn main() {
         "wall_s": (wall * 100.0).round() / 100.0,
         "violations": merged.n_violations(),
     });
-    std::fs::create_dir_all(format!("{VERIF}/evidence")).ok();
-    std::fs::write(format!("{VERIF}/evidence/{}.json", prop), serde_json::to_string_pretty(&evidence).unwrap()).expect("write evidence");
+    std::fs::create_dir_all(format!("{}/evidence", verif_root())).ok();
+    std::fs::write(format!("{}/evidence/{}.json", verif_root(), prop), serde_json::to_string_pretty(&evidence).unwrap()).expect("write evidence");
 
     println!(
         "{} {} seed={} engines={:?} evaluations={} distinct_nontrivial={} violations={} known={} wall={:.1}s verdict={}",
@@ -276,7 +278,7 @@ fn dummy_ctx(prop: &str, tier: Tier, seed: u64, eng: &str) -> Ctx {
         nshards: 1,
         engine: eng.to_string(),
         scale: 100,
-        known: KnownFindings::load(&format!("{VERIF}/KNOWN_FINDINGS.txt")),
+        known: KnownFindings::load(&format!("{}/KNOWN_FINDINGS.txt", verif_root())),
         started: Instant::now(),
         soft_budget_s: 0,
         replay_seed: None,
@@ -286,9 +288,9 @@ fn dummy_ctx(prop: &str, tier: Tier, seed: u64, eng: &str) -> Ctx {
 
 fn engine_exe(eng: &str) -> String {
     match eng {
-        "e2" => format!("{VERIF}/harness/target/shipped/rv"),
-        "e3" => format!("{VERIF}/harness/target-asan/x86_64-unknown-linux-gnu/release/rv"),
-        _ => format!("{VERIF}/harness/target/release/rv"),
+        "e2" => format!("{}/harness/target/shipped/rv", verif_root()),
+        "e3" => format!("{}/harness/target-asan/x86_64-unknown-linux-gnu/release/rv", verif_root()),
+        _ => format!("{}/harness/target/release/rv", verif_root()),
     }
 }
 
